@@ -239,7 +239,7 @@ func Merge[T any](s []T, params ...[]T) []T {
 	for i := 0; i < len(params); i++ {
 		merged = append(merged, params[i]...)
 	}
-	merged = append(s, merged...)
+	merged = append(s[:len(s):len(s)], merged...)
 
 	return merged
 }
